@@ -32,6 +32,11 @@ def gen(rng, tier):
         if rng.random() < 0.3:
             from . import c09 as PURE
             q = {"first": {"fake": False, "segs": [["list", ["filter", PURE.gen_cacheable_logical(rng, rng.randint(1, 2))]]]}, "rest": []}
+            doc = rng.choice([
+                {"a": 1, "c": True, "x": {"a": 5, "b": [1, 2], "c": [3]}, "y": {"b": [], "a": 0}, "z": {"b": [7], "c": {"k": 1}, "a": 1}},
+                {"a": 2, "b": [1, 2, 3], "x": {"a": 1, "b": [1]}, "y": {"a": 2, "b": [2, 3], "c": 1}, "c": None},
+                {"a": 1, "b": [0, 1], "k1": {"a": 1}, "k2": {"a": 1, "b": 2}, "k3": {"a": 2}, "k4": 1},
+                doc])
         if rng.random() < 0.5:
             q["rest"] = q["rest"] + [[rng.choice(["union", "inter"]), {"fake": False, "segs": Q.gen_ext_segs_for_doc(rng, doc, 2)}]
                                      for _ in range(rng.randint(1, 3))]
@@ -88,13 +93,21 @@ def impl(case):
         # a result iterator is lazy: the same compiled query is used on another document (values rotated) while it is
         # half consumed; the values it yields afterwards are still those of ITS document
         d = deep(doc)
-        if isinstance(d, dict) and d:
-            ks = list(d)
-            other = dict(zip(ks, [deep(d[k]) for k in ks[1:] + ks[:1]]))
-        elif isinstance(d, list) and d:
-            other = [deep(x) for x in reversed(d)] + [1]
-        else:
-            other = {"a": 1}
+
+        def twist(v, depth=0):
+            # the same shape with every scalar changed (what the constant parts of a filter read is different)
+            if isinstance(v, bool):
+                return not v
+            if isinstance(v, (int, float)):
+                return v + 1
+            if isinstance(v, str):
+                return v + "x"
+            if v is None:
+                return 0
+            if isinstance(v, list):
+                return [twist(x, depth + 1) for x in v] if depth < 2 else deep(v)
+            return {k: twist(x, depth + 1) for k, x in v.items()} if depth < 2 else deep(v)
+        other = twist(d)
         it = iter(c.finditer(d, filter_context=ctx))
         got = []
         for m in it:
